@@ -1,6 +1,7 @@
 import Hyeong.Driver.Enc
 import Hyeong.Driver.NumOps
 import Hyeong.Driver.BigOps
+import Hyeong.Driver.ExecOps
 /-!
 hydrv — the model driver: answers the same one-line operations as harness/ (hyverif) from the
 formal model (`m.` prefix = Hyeong.Model, `s.` prefix = Hyeong.Spec). Imports core-only files.
@@ -38,6 +39,8 @@ def dispatch (f : List String) : String :=
   | ["m.bigparse", b, t] => mBigParse b t
   | ["s.bigstr", b, a] => sBigStr b a
   | ["s.bigparse", b, t] => sBigParse b t
+  | ["m.exec", mode, p, i, mx] => execOp false mode p i mx
+  | ["s.exec", mode, p, i, mx] => execOp true mode p i mx
   | _ => "BADOP"
 
 partial def loop (h : IO.FS.Stream) (out : IO.FS.Stream) : IO Unit := do
